@@ -386,6 +386,9 @@ pub(super) fn derive_schema(input: TokenStream) -> syn::Result<TokenStream> {
                     container_attrs.serde.rename_all_fields.clone()
                 };
 
+                let is_newtype = matches!(&v.fields, Fields::Unnamed(u) if u.unnamed.len() == 1)
+                    && variant_attrs.openapi.schema_with.is_none();
+
                 let mut schema = if let Some(schema_with) = &variant_attrs.openapi.schema_with {
                     let schema_with = syn::parse_str::<Path>(schema_with)?;
                     quote! {
@@ -408,6 +411,26 @@ pub(super) fn derive_schema(input: TokenStream) -> syn::Result<TokenStream> {
                         quote! {
                             ::ohkami::openapi::object()
                                 .property(#tag, #schema)
+                        }
+                    }
+
+                    (Some(t), None, _) if is_newtype => {/* Internally tagged: the tag and the inner type's fields */
+                        let t = LitStr::new(t, Span::call_site());
+                        quote! {
+                            {
+                                let mut schema = ::ohkami::openapi::object()
+                                    .property(#t, ::ohkami::openapi::string().enumerates([#tag]));
+                                for (property_name, property_schema, required) in
+                                    ::ohkami::openapi::schema::RawSchema::from(#schema).into_properties()
+                                {
+                                    if required {
+                                        schema = schema.property(property_name, property_schema);
+                                    } else {
+                                        schema = schema.optional(property_name, property_schema);
+                                    }
+                                }
+                                schema
+                            }
                         }
                     }
 
